@@ -174,7 +174,9 @@ def server_gen(sc, s):
         reqCert=s.get("reqCert", False), sessionCache=s.get("sessionCache"),
         settings=s.get("settings"), checker=s.get("checker"),
         reqCAs=s.get("reqCAs"), nextProtos=s.get("nextProtos"),
-        anon=s.get("anon", False), alpn=s.get("alpn"), sni=s.get("sni"))
+        anon=s.get("anon", False), alpn=s.get("alpn"), sni=s.get("sni"),
+        **({"dc_key": s["dc_key"], "del_cred": s["del_cred"]}
+           if s.get("del_cred") is not None else {}))
 
 
 def connect(client=None, server=None, link=None, mitm=None, byte_mitm=None,
